@@ -492,7 +492,7 @@ func (it *Interp) unknownCall(fn *ssa.Function, st *State, instr ssa.CallInstruc
 	}
 	out := []callResult{{heap: st.Heap, ret: topResult(nres)}}
 	if mayPanic {
-		out = append(out, callResult{heap: st.Heap, ret: Top{}, exc: true})
+		out = append(out, callResult{heap: st.Heap.clone(), ret: Top{}, exc: true})
 	}
 	return out
 }
@@ -595,7 +595,7 @@ func (it *Interp) callbackClosure(fn *ssa.Function, st *State, instr ssa.CallIns
 	for _, k := range order {
 		out = append(out, callResult{heap: seen[k], ret: topResult(nres)})
 		if mayPanic {
-			out = append(out, callResult{heap: seen[k], ret: Top{}, exc: true})
+			out = append(out, callResult{heap: seen[k].clone(), ret: Top{}, exc: true})
 		}
 	}
 	return out
